@@ -1123,3 +1123,43 @@ Proof.
   exists (fun p _ _ => p), (-5), 50, [mkC 0 1 0], [30%nat; 45%nat].
   eexists. split; vm_compute; reflexivity.
 Qed.
+
+(* ================================================================== process groups *)
+
+(* after killpg(g) no process of group g is alive, whatever the table *)
+Theorem killpg_stops_group : forall g tb, any_alive (in_group g (sig_group g tb)) = false.
+Proof.
+  intros g tb. unfold any_alive, in_group, sig_group.
+  induction tb as [|p tb IH]; [reflexivity|].
+  cbn [map filter]. destruct (pr_pgid p =? g) eqn:E.
+  - unfold stop_proc at 1. cbn [pr_pgid]. rewrite E. cbn [existsb pr_alive]. exact IH.
+  - rewrite E. exact IH.
+Qed.
+
+(* killpg leaves every other group alone *)
+Theorem killpg_other_groups : forall g h tb, h <> g -> in_group h (sig_group g tb) = in_group h tb.
+Proof.
+  intros g h tb Hne. unfold in_group, sig_group.
+  induction tb as [|p tb IH]; [reflexivity|].
+  cbn [map filter]. destruct (pr_pgid p =? g) eqn:E.
+  - apply Z.eqb_eq in E. unfold stop_proc at 1. cbn [pr_pgid].
+    destruct (pr_pgid p =? h) eqn:E2; [apply Z.eqb_eq in E2; lia|]. exact IH.
+  - destruct (pr_pgid p =? h); [f_equal|]; exact IH.
+Qed.
+
+(* the program a launcher (leader of group L) starts is in group L, and killpg(L) stops it *)
+Theorem killpg_reaches_launched : forall L c tb l,
+  find (fun p => pr_pid p =? L) tb = Some l -> pr_pgid l = L ->
+  In (mkProc c L false) (sig_group L (spawn L c tb)) /\
+  any_alive (in_group L (sig_group L (spawn L c tb))) = false.
+Proof.
+  intros L c tb l Hf Hg. split; [|apply killpg_stops_group].
+  unfold spawn. rewrite Hf, Hg. unfold sig_group. rewrite map_app. apply in_or_app. right.
+  cbn [map pr_pgid]. rewrite Z.eqb_refl. left. reflexivity.
+Qed.
+
+(* signalling only the leader does not: launcher 10 (group 10) runs the program 11 *)
+Theorem signal_leader_only_refuted :
+  exists L c tb, any_alive (in_group L (sig_pid L (spawn L c tb))) = true /\
+                 any_alive (in_group L (sig_group L (spawn L c tb))) = false.
+Proof. exists 10, 11, [mkProc 10 10 true]. split; vm_compute; reflexivity. Qed.
